@@ -194,7 +194,7 @@ def trace_case(spec, ctx):
 @st.composite
 def value_cases(draw):
     m = draw(models.model_specs(names="ident", n_state=(2, 3), n_control=(0, 1), n_calib=(0, 1), n_sensors=(1, 2),
-                                n_readings=(1, 2), depth=2, sensor_depth=2, euler=True, innovation=("none", "k")))
+                                n_readings=(1, 2), depth=2, sensor_depth=2, euler="bounded", innovation=("none", "k")))
     n = len(m["state"])
     max_dt = m["config"]["max_dt"]
     t0 = draw(st.sampled_from([0.0, 10.0, -3.0]))
